@@ -1,6 +1,6 @@
 (* C13 -- vertex indices are k-mers and arcs are shift-append, for every k >= 1 and every vertex. *)
-From DSW Require Import Py Bignum Convert Kmer Graph Spec GraphSpec.
-From DSW.Proofs Require Import KmerProofs GraphProofs.
+From DSW Require Import Py Bignum Convert Kmer Graph Score Spec GraphSpec.
+From DSW.Proofs Require Import KmerProofs GraphProofs LegalProofs.
 
 (* the index of a vertex is the base-4 value of a k-mer: index <-> k-mer is a bijection onto [0, 4^k) *)
 Theorem C13_index_range : forall k km, is_kmer k km -> 0 <= kmer_index km < pow4 k.
@@ -47,6 +47,20 @@ Theorem C13_legal_valid_graph : forall k mask, Forall (fun x => 0 <= x) mask -> 
   end.
 Proof. exact connect_valid_graph_spec. Qed.
 
+(* ... and so does every graph the library generates or converts *)
+Theorem C13_legal_coding_graph : forall k t mask V acc, (1 <= k)%nat -> length mask = Z.to_nat (pow4 k) -> Forall bit mask ->
+  1 <= t -> connect_coding_graph k mask t = Ok (V, acc) -> legal k acc.
+Proof. exact coding_graph_legal. Qed.
+Theorem C13_legal_from_matrix : forall k M acc, (1 <= k)%nat -> length M = Z.to_nat (pow4 k) ->
+  adjacency_matrix_to_accessor M = Ok acc -> legal k acc.
+Proof. exact matrix_to_accessor_legal. Qed.
+Theorem C13_legal_from_latter_map : forall k m acc, (1 <= k)%nat -> de_bruijn_lmap k m ->
+  latter_map_to_accessor m k None = Ok acc -> legal k acc.
+Proof. exact latter_map_to_accessor_legal. Qed.
+Theorem C13_legal_after_arc_removal : forall k acc ins del acc' m' arc scs, (1 <= k)%nat -> legal k acc ->
+  remove_nasty_arc acc (accessor_to_latter_map acc) ins del = Ok (acc', m', arc, scs) -> legal k acc'.
+Proof. exact arc_removal_legal. Qed.
+
 Example C13_nonvacuous : is_kmer 3 [2; 0; 3] /\ kmer_index [2; 0; 3] = 35 /\ obtain_latters 35 3 = [12; 13; 14; 15]
   /\ obtain_formers 35 3 = [8; 24; 40; 56].
 Proof. split; [split; [reflexivity|repeat constructor; vm_compute; congruence]|]. repeat split; vm_compute; reflexivity. Qed.
@@ -63,3 +77,7 @@ Print Assumptions C13_complete.
 Print Assumptions C13_legal_complete.
 Print Assumptions C13_legal_induced.
 Print Assumptions C13_legal_valid_graph.
+Print Assumptions C13_legal_coding_graph.
+Print Assumptions C13_legal_from_matrix.
+Print Assumptions C13_legal_from_latter_map.
+Print Assumptions C13_legal_after_arc_removal.
